@@ -6,6 +6,7 @@ import (
 	"encoding/binary"
 	"os"
 
+	"github.com/scigolib/hdf5/internal/core"
 	"github.com/scigolib/hdf5/internal/vrt"
 )
 
@@ -198,3 +199,117 @@ func VerifH_C07_api_sweep_vlen_06_thorough() { verifSweep(2, 6) }
 func VerifH_C07_api_sweep_vlen_07_thorough() { verifSweep(2, 7) }
 func VerifH_C07_api_sweep_vlen_08_thorough() { verifSweep(2, 8) }
 func VerifH_C07_api_sweep_vlen_09_thorough() { verifSweep(2, 9) }
+
+// hard links stored as link messages (the compact form of "new style" groups) in a library-written file: one or two
+// link messages are added to the object header of /, /g or /g/h, each leading to one of {/, /g, /g/h, /g/d}. Links
+// back to an ancestor or to the group itself are legal HDF5 (hard link cycles); Open and Walk must return within a
+// work budget and without exhausting the stack.
+func VerifH_C07_api_link_message_cycle() {
+	vrt.LoopBound(200000)
+	fw, err := CreateForWrite("c07k.h5", CreateTruncate)
+	vrt.AssertNoErr(err, "create-ok")
+	_, err = fw.CreateGroup("/g")
+	vrt.AssertNoErr(err, "group-ok")
+	_, err = fw.CreateGroup("/g/h")
+	vrt.AssertNoErr(err, "group-ok")
+	d, err := fw.CreateDataset("/g/d", Int32, []uint64{1})
+	vrt.AssertNoErr(err, "create-dataset-ok")
+	vrt.AssertNoErr(d.Write([]int32{7}), "write-ok")
+	vrt.AssertNoErr(fw.Close(), "close-ok")
+
+	f, err := Open("c07k.h5")
+	vrt.AssertNoErr(err, "open-ok")
+	addrs := map[string]uint64{}
+	f.Walk(func(p string, o Object) {
+		switch x := o.(type) {
+		case *Group:
+			addrs[p] = x.address
+		case *Dataset:
+			addrs[p] = x.address
+		}
+	})
+	sb := f.sb
+	vrt.AssertNoErr(f.Close(), "close-ok")
+	objs := []uint64{sb.RootGroup, addrs["/g/"], addrs["/g/h/"], addrs["/g/d"]}
+	for _, a := range objs {
+		vrt.Assert(a != 0, "object-addresses-known")
+	}
+
+	holder := objs[vrt.Choice(3)]
+	nlinks := 1 + vrt.Choice(2)
+	osf, err := os.OpenFile("c07k.h5", os.O_RDWR, 0)
+	vrt.AssertNoErr(err, "raw-open-ok")
+	oh, err := core.ReadObjectHeader(osf, holder, sb)
+	vrt.AssertNoErr(err, "holder-header-ok")
+	for i := 0; i < nlinks; i++ {
+		target := objs[vrt.Choice(4)]
+		msg := []byte{1, 0, 2, 'l', byte('0' + i), 0, 0, 0, 0, 0, 0, 0, 0}
+		binary.LittleEndian.PutUint64(msg[5:], target)
+		if core.AddMessageToObjectHeader(oh, core.MsgLinkMessage, msg) != nil {
+			return // no room in this header
+		}
+	}
+	vrt.AssertNoErr(core.WriteObjectHeader(osf, holder, oh, sb), "holder-rewrite-ok")
+	vrt.AssertNoErr(osf.Close(), "raw-close-ok")
+
+	vrt.StepBudget(1500000)
+	f, err = Open("c07k.h5")
+	if err == nil {
+		n := 0
+		f.Walk(func(p string, o Object) { n++ })
+		vrt.Assert(n >= 1, "walk-visits-root")
+		_ = f.Close()
+	}
+	vrt.Covered("link-cycle-opened")
+}
+
+// the same ladder with hard links stored as link messages: groups g00..g(N-1) are siblings under the root; the object
+// header of g(i) receives two link messages, both leading to g(i+1). The file grows linearly with N, the number of
+// paths doubles with every step; Open must stay within a work budget proportional to the file.
+func VerifH_C07_api_link_message_ladder() {
+	vrt.LoopBound(200000)
+	const depth = 16
+	fw, err := CreateForWrite("c07m.h5", CreateTruncate)
+	vrt.AssertNoErr(err, "create-ok")
+	names := make([]string, depth)
+	for i := range names {
+		names[i] = "/g" + string(rune('a'+i))
+		_, err = fw.CreateGroup(names[i])
+		vrt.AssertNoErr(err, "group-ok")
+	}
+	vrt.AssertNoErr(fw.Close(), "close-ok")
+	f, err := Open("c07m.h5")
+	vrt.AssertNoErr(err, "open-ok")
+	addrs := map[string]uint64{}
+	f.Walk(func(p string, o Object) {
+		if g, ok := o.(*Group); ok {
+			addrs[p] = g.address
+		}
+	})
+	sb := f.sb
+	vrt.AssertNoErr(f.Close(), "close-ok")
+	osf, err := os.OpenFile("c07m.h5", os.O_RDWR, 0)
+	vrt.AssertNoErr(err, "raw-open-ok")
+	last := vrt.U8() // name of the second link: any byte other than 'a'
+	vrt.Assume(last != 'a' && last != 0 && last != '/')
+	for i := 0; i+1 < depth; i++ {
+		holder, target := addrs[names[i]+"/"], addrs[names[i+1]+"/"]
+		vrt.Assert(holder != 0 && target != 0, "object-addresses-known")
+		oh, err := core.ReadObjectHeader(osf, holder, sb)
+		vrt.AssertNoErr(err, "holder-header-ok")
+		for _, c := range []byte{'a', last} {
+			msg := []byte{1, 0, 1, c, 0, 0, 0, 0, 0, 0, 0, 0}
+			binary.LittleEndian.PutUint64(msg[4:], target)
+			vrt.AssertNoErr(core.AddMessageToObjectHeader(oh, core.MsgLinkMessage, msg), "link-message-fits")
+		}
+		vrt.AssertNoErr(core.WriteObjectHeader(osf, holder, oh, sb), "holder-rewrite-ok")
+	}
+	vrt.AssertNoErr(osf.Close(), "raw-close-ok")
+	vrt.Covered("link-ladder-built")
+	vrt.StepBudget(3000000) // a pass that loads each of the 17 groups once stays below a third of this
+	f, err = Open("c07m.h5")
+	if err == nil {
+		_ = f.Close()
+	}
+	vrt.Covered("link-ladder-opened")
+}
